@@ -477,6 +477,9 @@ func runC02(p *core.Prog, r *core.Report) {
 		core.CheckSuccessFn(p, r8, del, core.SuccessRule{ResultIdx: -1, MinReturns: 1, Guards: gs, Derived: der,
 			Need: []string{"phy-accounted", "payload-accounted", "gc-accounted", "root-accounted", "ts-accounted", "lock-accounted", "link-accounted"}})
 	}
+	// ---------------- R9 the recount uses the marking sites' notion of availability
+	r9 := r.Rule("C02.R9", "syncContainerCounters adds a size to the payload total only under inGarbage(id)==statusAvailable, the predicate of the marking sites", 1)
+	recountAgreesWithMarking(p, r, r9)
 	// ---------------- R7 count once on put
 	r7 := r.Rule("C02.R7", "DB.put changes counters only for an object that is not indexed yet: exists()==(false, nil), or — when exists answered not-found because of a garbage mark — an explicit index probe found nothing", 1)
 	if put := p.Func(mbDB + "put"); put == nil {
@@ -677,4 +680,44 @@ func valuePresenceTests(fn *ssa.Function, isGet func(core.Site) bool, nilValuedK
 		}
 	}
 	return out
+}
+
+// recountAgreesWithMarking: the counter recount (syncContainerCounters: start-up, migration, resync) adds an object's size to
+// the payload total only when inGarbage(id) == statusAvailable — the very predicate under which the marking sites take the
+// size out (C02.R5). Another notion of "available" (e.g. one with the lock override) makes the recount disagree with the
+// incremental accounting for histories where the two notions differ. Shared by C02.R9 and C42.R6.
+func recountAgreesWithMarking(p *core.Prog, r *core.Report, h *core.RuleH) {
+	fn := p.Func(mb + "syncContainerCounters")
+	if fn == nil {
+		r.Fatalf("%s: syncContainerCounters not found", h.ID())
+		return
+	}
+	stAvail, ok := p.ConstInt(mb + "statusAvailable")
+	if !ok {
+		r.Fatalf("%s: statusAvailable not found", h.ID())
+		return
+	}
+	n := 0
+	for _, f := range append([]*ssa.Function{fn}, fn.AnonFuncs...) {
+		avail := core.Guard{Name: "inGarbage==statusAvailable", Match: func(s core.Site) bool { return s.Name == mb+"inGarbage" },
+			Comps: []core.Comp{{Result: -1, Kind: core.EqConst, Const: stAvail}}}
+		n += core.CheckEffectsFn(p, h, f, core.EffectRule{Guards: []core.Guard{avail}, Effect: func(_ *core.Prog, in ssa.Instruction) (string, bool) {
+			st, isSt := in.(*ssa.Store)
+			if !isSt || st.Val.Type().String() != "uint64" {
+				return "", false
+			}
+			bo, isB := st.Val.(*ssa.BinOp)
+			if !isB || bo.Op != token.ADD {
+				return "", false
+			}
+			if _, isK := intConstOf(bo.Y); isK {
+				return "", false // an object counter (+1), not the payload total
+			}
+			ld, isLd := bo.X.(*ssa.UnOp)
+			return "payload-total += size", isLd && ld.X == st.Addr
+		}})
+	}
+	if n == 0 {
+		r.Fatalf("%s: the recount no longer accumulates a payload total", h.ID())
+	}
 }
